@@ -90,6 +90,8 @@ void vs_drain(void);
 
 // progress / quiescence (runtime harnesses)
 void vs_progress(void);
+// the program under test completed an operation (used to tell "slow" from "stuck" at the step budget)
+void vs_program_advanced(void);
 typedef void (*vs_quiescence_fn)(void);
 void vs_set_quiescence_cb(vs_quiescence_fn fn);
 // virtual timer: number of ticks to deliver through the fake timerfd
@@ -110,6 +112,10 @@ void vs_heap_quarantine_check(int on);
 extern int vs_real_sleep_calls;
 // hook that harnesses may set: called when a real sleep is reached
 extern void (*vs_on_real_sleep)(const char* which);
+// optional: harness-supplied description of where the program is (added to livelock reports)
+extern const char* (*vs_describe_state)(void);
+// optional: is the caller of epoll_wait the kernel thread's idle loop? (default: yes)
+extern int (*vs_idle_context)(void);
 
 // deterministic PRNG derived from the generated seed (harness may use it for
 // data that is part of the generated case only)
